@@ -9,6 +9,7 @@ import AriesVerif.C12.Drv
 import AriesVerif.C05.Drv
 import AriesVerif.C14.Drv
 import AriesVerif.C08.Drv
+import AriesVerif.C13.Drv
 import AriesVerif.C10.Drv
 import AriesVerif.C03.Drv
 import AriesVerif.C07.Drv
@@ -31,6 +32,7 @@ def dispatch (prop : String) (input : String) (impl : String) : String × String
   | "C07" => Ldp.Drv.judge input impl
   | "C03" => C03.Drv.judge input impl
   | "C10" => Conn.Drv.judge input impl
+  | "C13" => Lin.Drv.judge input impl
   | "C14" => (Route.Drv.handle input, Route.Drv.handleSpec input, "")
   | "C19" => (C19.Drv.handle input, C19.Drv.handleSpec input, "")
   | "C01" => (Env.Drv.handle input, Env.Drv.handle input, "")
